@@ -32,6 +32,10 @@ TransportOk(e) ==
   /\ e.lines = Echoes(Deliver(e.arg) \o Deliver(e.stdin))
   /\ e.code = 0
 
+(* a script that resumes a program which reads input: --command (input alone on stdin) against stdin (each input byte right behind *)
+(* the command during which it is read): same output, same registers, same exit status                                              *)
+XportOk(e) == e.arg = e.stdin
+
 (* ---- C06: compile output, loader ---- *)
 CompileOk(e) ==
   IF Accepts(e.ast, e.stack)
@@ -118,6 +122,7 @@ WatchOk(e) == e.seen \in {"none", IF e.valid THEN "success" ELSE "error"}
 
 Explains(e) ==
   CASE e.ev = "transport" -> TransportOk(e)
+    [] e.ev = "xport"     -> XportOk(e)
     [] e.ev = "watch"     -> WatchOk(e)
     [] e.ev = "dispatch"  -> DispatchOk(e)
     [] e.ev = "compile"   -> CompileOk(e)
